@@ -16,6 +16,7 @@ LEVEL = "exploration"
 NAMES = ["m0", "m1", "m2", "m3", "m4", "m5"]
 LIBS = ["l0", "l1", "l2"]                       # constructor-less modules (nolib.so)
 NOPOST = ["n0", "n1", "n2"]                     # modules with constructor and destructor but no post-init hook (nopost.so)
+PREFIXED = ["auth", "auth_db", "auth_ldap", "a", "au", "AUTH_X"]   # names that are prefixes of one another (the tree's own style: iauth, iauth_xquery)
 MANY = ["k%03d" % i for i in range(300)]        # for graphs with hundreds of modules
 
 
@@ -341,6 +342,15 @@ def gen_cases(tier, seed, scale):
             if rng.random() < 0.12:
                 # unloading takes its time: one or two destructors need 12-40 ms each (the order still has to hold)
                 cases[-1]["slow"] = ";".join("%s:%d" % (NAMES[u], rng.choice([12, 20, 40])) for u in rng.sample(range(n), rng.choice([1, 2])))
+    # modules whose names are prefixes of one another: all small DAGs over six such names, random listings
+    for _ in range(int((300 if tier == "quick" else 4000) * scale)):
+        n = rng.randint(3, 6)
+        names = rng.sample(PREFIXED, n)
+        perm = list(range(n))
+        rng.shuffle(perm)
+        edges = [(perm[i], perm[j]) for i in range(n) for j in range(i + 1, n) if rng.random() < 0.45]
+        lst = list(rng.choice(listings_for(edges, n, rng, 6)))
+        cases.append({"kind": "dag2", "n": n, "edges": edges, "listing": lst, "names": names, "genv": graph_env(edges, rng, names=names), "prefixed": True})
     # live runs: started for real, reloaded with another modules list, stopped by SIGHUP
     for _ in range(int((40 if tier == "quick" else 600) * scale) or 1):
         n = rng.randint(2, 5)
@@ -482,7 +492,7 @@ def prepare(tag):
     stub = build.build_shared(out, "asan", "modstub", "modstub.c")
     moddir = os.path.join(out, "stubs")
     os.makedirs(moddir)
-    for nm in NAMES + MANY:
+    for nm in NAMES + MANY + PREFIXED:
         shutil.copy(stub, os.path.join(moddir, nm + ".so"))
     nolib = build.build_shared(out, "asan", "nolib", "nolib.c")
     for nm in LIBS:
@@ -512,6 +522,8 @@ def run(chk, tier, scale=1.0):
                 chk.count("runs_with_slow_destructors")
             if case.get("live"):
                 chk.count("live_runs_with_reloaded_module_list")
+            if case.get("prefixed"):
+                chk.count("runs_with_names_that_are_prefixes_of_one_another")
             if case["n"] >= 200:
                 chk.count("runs_with_hundreds_of_modules")
             chk.add_case(vcommon.h(key + (tuple(map(tuple, case.get("anti", ()))),)), nev > 0 or case["kind"] not in ("dag", "anti", "dag2"))
